@@ -670,6 +670,52 @@ def mutate(rng, segs):
     return tuple(segs)
 
 
+def tweak(rng, segs):
+    """The same sequence with ONE property of ONE segment changed (the inversion flag, the operator, one text, the
+    keyword, the collector operator, the index, the kind of a key / anchor): what == must tell apart."""
+    if not segs:
+        return (("KEY", "a", None),)
+    segs = list(segs)
+    i = rng.randrange(len(segs))
+    x = segs[i]
+    k = x[0]
+
+    def other_text(t):
+        return t + "a" if rng.random() < 0.5 or not t else t[:-1] + ("b" if t[-1] != "b" else "c")
+
+    if k == "KEY":
+        segs[i] = rng.choice([("KEY", other_text(x[1]), x[2]), ("ANCHOR", "a", False), ("STAR",)])
+    elif k == "INDEX":
+        segs[i] = rng.choice([("INDEX", x[1] + 1), ("KEY", str(x[1]), "sq"), ("SLICE", "%d:" % x[1])])
+    elif k == "SLICE":
+        segs[i] = ("SLICE", x[1] + "1")
+    elif k == "ANCHOR":
+        segs[i] = rng.choice([("ANCHOR", x[1] + "1", x[2]), ("KEY", x[1], None)])
+    elif k in ("STAR", "TRAV"):
+        segs[i] = ("TRAV",) if k == "STAR" else ("STAR",)
+    elif k == "SEARCH":
+        _, inv, m, attr, term, prefix, q, d = x
+        r = rng.randrange(4)
+        if r == 0:
+            inv = not inv
+        elif r == 1:
+            m = rng.choice([o for o in OPS if o != m and (o == "REGEX") == (m == "REGEX")] or ["EQUALS"])
+        elif r == 2:
+            attr = other_text(attr)
+        else:
+            term = other_text(term)
+        segs[i] = ("SEARCH", inv, m, attr, term, prefix, term_quote(rng, term) if m != "REGEX" else q, pick_delim(rng, term))
+    elif k == "KW":
+        _, inv, kw, params = x
+        r = rng.randrange(3)
+        segs[i] = ("KW", not inv, kw, params) if r == 0 else \
+            ("KW", inv, rng.choice([w for w in KWS if w != kw]), params) if r == 1 else ("KW", inv, kw, other_text(params))
+    elif k == "COLL":
+        segs[i] = rng.choice([("COLL", x[1], x[2] + "a"),
+                              ("COLL", "SUBTRACTION" if x[1] != "SUBTRACTION" else "ADDITION", x[2])])
+    return tuple(segs)
+
+
 def pool_segments():
     """Representative styled segments of every kind (the small-scope alphabet of sequences)."""
     P = []
@@ -704,6 +750,8 @@ def _peer_and_tail(rng, sep, segs):
     r = rng.random()
     if r < 0.45:
         peer = (rng.choice(["dot", "slash"]), restyle(rng, segs))
+    elif r < 0.7:
+        peer = (rng.choice(["dot", "slash"]), restyle(rng, tweak(rng, segs)))
     elif r < 0.9:
         peer = (rng.choice(["dot", "slash"]), mutate(rng, segs))
     else:
